@@ -15,7 +15,7 @@ import env
 from core import Exn, cstr, cbool, copt, clist, call
 from saml2_tophat import md, saml, samlp
 from saml2_tophat import BINDING_HTTP_POST as POST, BINDING_HTTP_REDIRECT as REDIRECT
-from saml2_tophat import BINDING_HTTP_ARTIFACT as ARTIFACT, BINDING_SOAP as SOAP
+from saml2_tophat import BINDING_HTTP_ARTIFACT as ARTIFACT, BINDING_SOAP as SOAP, BINDING_PAOS as PAOS
 
 CLAIM = {
     "text": "Coq theorems (Props/C09.v) over an executable model of Entity.response_args / pick_binding and MetadataStore.service (None vs [] vs list, several sources, UnknownSystemEntity vs swallowed UnsupportedBinding, the independent getattr reads of _url/_index, binding list derivation, destinations(srvs)[0], message-type dispatch and SOAP short-cut): for EVERY metadata store, configuration, request, bindings argument and descr_type, any (binding, destination) produced is an endpoint the metadata registers for the stripped issuer under the consulted role and service (or the empty back-channel destination of the bindings==[SOAP] short-cut); a supplied consumer URL is answered only when string-equal to a registered location and otherwise the result is an error (never that URL), and a URL registered in the effective endpoint list is honoured; an issuer without that role in metadata always yields an error. The index half holds too (C09_index, C09_unknown_index_refused): an AuthnRequest naming an index and no URL is answered only to an endpoint carrying exactly that index, an unknown index is refused; for the code before the repair fix: 05de9b7d the file keeps the refutation (C09_index_before_fix_refuted, witness) about the separately named response_args_before_fix. Tie to the code: exhaustive cross product of small metadata layouts x request variants (URL registered / unregistered / near-miss, index, protocol binding, issuer, bindings argument, AuthnRequest / LogoutRequest / other message classes) through the real Server.response_args and pick_binding on every run, random larger layouts on top.",
@@ -309,7 +309,9 @@ PB_VARIANTS = [("absent", None), ("post", POST), ("redirect", REDIRECT), ("artif
 ISSUER_VARIANTS = [("sp1", SP1), ("sp1-padded", " \t" + SP1 + "\n"), ("nobody", NOBODY), ("sp2", SP2),
                    ("sp1-case", SP1.upper()), ("sp1-slash", SP1 + "/"), ("none", None), ("sp1-nbsp", SP1 + u"\xa0 ")]
 BINDINGS_VARIANTS = [("none", None), ("post", [POST]), ("redirect-post", [REDIRECT, POST]), ("soap", [SOAP]),
-                     ("artifact-soap", [ARTIFACT, SOAP]), ("empty", [])]
+                     ("artifact-soap", [ARTIFACT, SOAP]), ("empty", []),
+                     # the ECP call shape and other single-binding arguments: no binding value is a licence to skip the metadata
+                     ("paos", [PAOS]), ("paos-post", [PAOS, POST]), ("artifact", [ARTIFACT]), ("redirect", [REDIRECT])]
 
 
 def authn_requests(layout, full, thin=True):
@@ -339,7 +341,7 @@ def authn_requests(layout, full, thin=True):
 
 OTHER_KINDS = ["logout", "manage_name_id", "attribute_query", "assertion_id_request", "artifact_resolve",
                "name_id_mapping", "authn_query", "authz_decision_query"]
-LOGOUT_BINDINGS = [("none", None), ("soap", [SOAP]), ("redirect", [REDIRECT]), ("post", [POST]),
+LOGOUT_BINDINGS = [("none", None), ("soap", [SOAP]), ("redirect", [REDIRECT]), ("post", [POST]), ("paos", [PAOS]),
                    ("artifact-post", [ARTIFACT, POST]), ("soap-post", [SOAP, POST]), ("empty", []),
                    ("post-soap", [POST, SOAP])]
 
